@@ -95,6 +95,9 @@ func c19Build(seq []int, alphabet []string, sep string) string {
 	return sb.String()
 }
 
+// c19Blocks: lines of the block-structure enumeration
+var c19Blocks = []string{"a", "##!=>", "##!> cmdline unix", "##!> assemble", "##!<", "'##!=>", "'##!=< n", "##!=< n", "##!=> n", "##!> include x"}
+
 func c19Tree() core.Tree {
 	return core.Tree{
 		"regex-assembly/include/x.ra":   "foo\nbar\n",
@@ -179,6 +182,14 @@ func C19(r *core.Run) {
 				run("include", c19Build(seq, c19Lines, "\n"))
 			}
 		})
+		// block structure: a small alphabet of lines that only mean something together (markers, stored names, nested
+		// blocks, verbatim cmdline lines that look like markers), enumerated deeper than the general line alphabet
+		enumSeq(len(c19Blocks), r.Pick(5, 6), func(idx int, seq []int) {
+			if idx%n != shard || len(seq) < 4 {
+				return
+			}
+			run("stdin", c19Build(seq, c19Blocks, "\n")+"\n")
+		})
 		os.WriteFile(incPath, nil, 0o644)
 		res.Outcomes = len(distinct)
 		emit(res)
@@ -244,6 +255,26 @@ func C19(r *core.Run) {
 			}
 		}
 	}
+	// the configuration file is read on every run: whatever document it holds, generate ends with a result or a diagnostic
+	cfgRuns := 0
+	for ci, doc := range []string{"", "---\n", "~\n", "null\n", "NULL\n", "# only a comment\n", "---\n---\npatterns:\n  anti_evasion:\n    unix: 'x'\n", "patterns: ~\n", "patterns:\n  anti_evasion: ~\n",
+		"patterns:\n  anti_evasion:\n    unix: ~\n", "patterns: []\n", "patterns: 3\n", "[]\n", "3\n", "\"text\"\n", "patterns:\n  anti_evasion:\n    unix: [a, b]\n", "patterns:\n  anti_evasion:\n    unix: {a: b}\n",
+		"&a [*a]\n", "patterns: &p\n  anti_evasion: *p\n", "\xff\xfe\n", "\ufeffpatterns:\n", "patterns:\n\tanti_evasion: x\n", "? |\n  x\n: y\n", "patterns:\n  anti_evasion:\n    unix: '('\n"} {
+		d := core.Scratch("c19cfg")
+		t := c19Tree()
+		t["regex-assembly/toolchain.yaml"] = doc
+		t.Materialise(d)
+		for _, prog := range []string{"a\n", "##!> cmdline unix\nls@\nrm -f~\n##!<\n", "##!> cmdline windows\ndir\n##!<\n", "##!> include x\n", ""} {
+			cli := core.RunCLI(r.Crs, d, prog, nil, "-d", d, "regex", "generate", "-")
+			cfgRuns++
+			if cls := cliClass(cli); cls == "runtime" || cls == "timeout" || (cli.Exit == 2 && strings.Contains(cli.Stderr, "goroutine ") && !strings.Contains(cli.Stderr, "PNC")) {
+				r.Report(core.Violation{Clause: "no-runtime-fault", Key: fmt.Sprintf("config %d %q", ci, prog), What: fmt.Sprintf("with toolchain.yaml %q generate of %q ends with %s: %s", doc, prog, cls, tailStr(cli.Stderr, 300)),
+					Detail: map[string]any{"toolchain_yaml": doc, "program": prog, "exit": cli.Exit, "stderr_tail": tailStr(cli.Stderr, 600)}})
+			}
+		}
+		os.RemoveAll(d)
+	}
+	r.Cov["configuration_documents_x_programs_through_cli"] = cfgRuns
 	// every distinct runtime fault is replayed through the real CLI before it counts
 	keys := make([]string, 0, len(total.Sites))
 	for k := range total.Sites {
@@ -390,6 +421,8 @@ func agreeCLI(o inproc.Outcome, c core.CLIResult) bool {
 		return c.Exit == 2 && !strings.Contains(c.Stderr, "runtime error") && c.Stdout == ""
 	case inproc.Runtime:
 		return c.Exit == 2 && strings.Contains(c.Stderr, "runtime error")
+	case inproc.Other:
+		return c.Exit == 2 && strings.Contains(c.Stderr, "panic:") && !strings.Contains(c.Stderr, "zerolog")
 	}
 	return false
 }
